@@ -18,13 +18,43 @@ fn alphabet() -> Vec<(&'static str, Value, usize)> {
         q
     };
     vec![
-        ("valid_a", with(json!({"origin_vertex": 0, "destination_vertex": 3})), 1),
-        ("valid_b", with(json!({"origin_vertex": 2, "destination_vertex": 4, "w": 7.5})), 1),
-        ("unreachable", with(json!({"origin_vertex": 4, "destination_vertex": 0})), 1),
-        ("malformed", with(json!({"origin_vertex": "zero", "destination_vertex": 4})), 1),
-        ("plugin_failure", with(json!({"origin_vertex": 0, "destination_vertex": 4, "weight_factor": 2.0})), 1),
-        ("grid", with(json!({"origin_vertex": 0, "destination_vertex": 4, "grid_search": {"label": ["x", "y"]}})), 2),
-        ("iteration_limit", with(json!({"origin_vertex": 5, "destination_vertex": 4})), 1),
+        (
+            "valid_a",
+            with(json!({"origin_vertex": 0, "destination_vertex": 3})),
+            1,
+        ),
+        (
+            "valid_b",
+            with(json!({"origin_vertex": 2, "destination_vertex": 4, "w": 7.5})),
+            1,
+        ),
+        (
+            "unreachable",
+            with(json!({"origin_vertex": 4, "destination_vertex": 0})),
+            1,
+        ),
+        (
+            "malformed",
+            with(json!({"origin_vertex": "zero", "destination_vertex": 4})),
+            1,
+        ),
+        (
+            "plugin_failure",
+            with(json!({"origin_vertex": 0, "destination_vertex": 4, "weight_factor": 2.0})),
+            1,
+        ),
+        (
+            "grid",
+            with(
+                json!({"origin_vertex": 0, "destination_vertex": 4, "grid_search": {"label": ["x", "y"]}}),
+            ),
+            2,
+        ),
+        (
+            "iteration_limit",
+            with(json!({"origin_vertex": 5, "destination_vertex": 4})),
+            1,
+        ),
     ]
 }
 
@@ -34,7 +64,10 @@ fn app_spec(parallelism: usize, balancer: &str) -> AppSpec {
     s.algorithm = json!({"type": "dijkstra"});
     // the long query 5 -> 4 needs more expansions than the limit allows; every other query stays below it
     s.termination = json!({"type": "iterations", "limit": 5});
-    let mut plugins = vec![json!({"type": "grid_search"}), json!({"type": "inject", "key": "weight_factor", "value": "0.0", "format": "json", "overwrite": false})];
+    let mut plugins = vec![
+        json!({"type": "grid_search"}),
+        json!({"type": "inject", "key": "weight_factor", "value": "0.0", "format": "json", "overwrite": false}),
+    ];
     match balancer {
         "haversine" => plugins.push(json!({"type": "load_balancer", "weight_heuristic": {"type": "haversine"}})),
         "custom" => plugins.push(json!({"type": "load_balancer", "weight_heuristic": {"type": "custom", "custom_weight_type": {"type": "numeric", "column_name": "w"}}})),
@@ -42,7 +75,11 @@ fn app_spec(parallelism: usize, balancer: &str) -> AppSpec {
     }
     s.input_plugins = plugins;
     // the configured persistence policy alternates between the configurations; every run also states its own policy (or none)
-    s.persistence = if (parallelism + balancer.len()) % 2 == 0 { "discard_response_from_memory".into() } else { "persist_response_in_memory".into() };
+    s.persistence = if (parallelism + balancer.len()) % 2 == 0 {
+        "discard_response_from_memory".into()
+    } else {
+        "persist_response_in_memory".into()
+    };
     s
 }
 
@@ -86,14 +123,22 @@ fn batch_histories(tier: Tier, st: &mut Stats, only: Option<&Value>) -> bool {
     for par in 1..=4usize {
         for bal in ["none", "haversine", "custom"] {
             if let Some(o) = only {
-                if o["configured_parallelism"].as_u64() != Some(par as u64) || o["balancer"].as_str() != Some(bal) {
+                if o["configured_parallelism"].as_u64() != Some(par as u64)
+                    || o["balancer"].as_str() != Some(bal)
+                {
                     continue;
                 }
             }
             match app_spec(par, bal).build(&scratch.path.join(format!("app_{}_{}", par, bal))) {
                 Ok(a) => apps.push((par, bal, std::sync::Arc::new(a))),
                 Err(e) => {
-                    st.violation("harness", "app_build", 0, || e.clone(), || json!({"parallelism": par, "balancer": bal}));
+                    st.violation(
+                        "harness",
+                        "app_build",
+                        0,
+                        || e.clone(),
+                        || json!({"parallelism": par, "balancer": bal}),
+                    );
                     return true;
                 }
             }
@@ -101,7 +146,11 @@ fn batch_histories(tier: Tier, st: &mut Stats, only: Option<&Value>) -> bool {
     }
     for (par, bal, app) in apps.iter() {
         // index of the configuration in the full list (it rotates the quick-tier subsets)
-        let ai = (*par - 1) * 3 + ["none", "haversine", "custom"].iter().position(|b| b == bal).unwrap_or(0);
+        let ai = (*par - 1) * 3
+            + ["none", "haversine", "custom"]
+                .iter()
+                .position(|b| b == bal)
+                .unwrap_or(0);
         // what each alphabet query returns alone under this configuration: asked of a twin application whose configured policy keeps
         // responses in memory, so that the reference does not depend on how a per-run policy is honoured
         let ref_app = {
@@ -110,23 +159,53 @@ fn batch_histories(tier: Tier, st: &mut Stats, only: Option<&Value>) -> bool {
             match spec.build(&scratch.path.join(format!("ref_app_{}_{}", par, bal))) {
                 Ok(a) => a,
                 Err(e) => {
-                    st.violation("harness", "app_build", 0, || e.clone(), || json!({"parallelism": par, "balancer": bal}));
+                    st.violation(
+                        "harness",
+                        "app_build",
+                        0,
+                        || e.clone(),
+                        || json!({"parallelism": par, "balancer": bal}),
+                    );
                     return true;
                 }
             }
         };
         // what each alphabet query returns alone under this configuration
-        let alone: Vec<Vec<Value>> = alpha.iter().map(|(_, q, _)| guarded(|| ref_app.run(vec![tagq(q, "x")], None)).ok().and_then(|r| r.ok()).unwrap_or_default().iter().map(proj).collect()).collect();
+        let alone: Vec<Vec<Value>> = alpha
+            .iter()
+            .map(|(_, q, _)| {
+                guarded(|| ref_app.run(vec![tagq(q, "x")], None))
+                    .ok()
+                    .and_then(|r| r.ok())
+                    .unwrap_or_default()
+                    .iter()
+                    .map(proj)
+                    .collect()
+            })
+            .collect();
         // sanity of the alphabet itself
         for (i, (name, _, n)) in alpha.iter().enumerate() {
             let ok = alone[i].len() == *n
                 && match *name {
                     "valid_a" | "valid_b" | "grid" => alone[i].iter().all(|r| r["error"].is_null()),
-                    "iteration_limit" => alone[i][0]["error"].as_str().map_or(false, |e| e.contains("iteration limit")),
+                    "iteration_limit" => alone[i][0]["error"]
+                        .as_str()
+                        .map_or(false, |e| e.contains("iteration limit")),
                     _ => alone[i].iter().all(|r| !r["error"].is_null()),
                 };
             if !ok {
-                st.violation("harness", "alphabet_query_behaves_as_named", 0, || format!("{} under parallelism {} balancer {}: {:?}", name, par, bal, alone[i]), || json!({}));
+                st.violation(
+                    "harness",
+                    "alphabet_query_behaves_as_named",
+                    0,
+                    || {
+                        format!(
+                            "{} under parallelism {} balancer {}: {:?}",
+                            name, par, bal, alone[i]
+                        )
+                    },
+                    || json!({}),
+                );
                 return true;
             }
         }
@@ -142,11 +221,22 @@ fn batch_histories(tier: Tier, st: &mut Stats, only: Option<&Value>) -> bool {
                 continue;
             }
             for override_par in [None, Some(1usize), Some(3usize)] {
-                if only.map_or(true, |o| o.get("batch").is_none()) && override_par.is_some() && (bi + ai) % 3 != 0 {
+                if only.map_or(true, |o| o.get("batch").is_none())
+                    && override_par.is_some()
+                    && (bi + ai) % 3 != 0
+                {
                     continue;
                 }
-                let configured_persist: &str = if (par + bal.len()) % 2 == 0 { "discard_response_from_memory" } else { "persist_response_in_memory" };
-                for persist_opt in [Some("persist_response_in_memory"), Some("discard_response_from_memory"), None] {
+                let configured_persist: &str = if (par + bal.len()) % 2 == 0 {
+                    "discard_response_from_memory"
+                } else {
+                    "persist_response_in_memory"
+                };
+                for persist_opt in [
+                    Some("persist_response_in_memory"),
+                    Some("discard_response_from_memory"),
+                    None,
+                ] {
                     // no policy in the run configuration: the configured one applies
                     let persist: &str = persist_opt.unwrap_or(configured_persist);
                     st.states += 1;
@@ -156,7 +246,11 @@ fn batch_histories(tier: Tier, st: &mut Stats, only: Option<&Value>) -> bool {
                     if b.len() > 1 {
                         st.nontrivial += 1;
                     }
-                    let queries: Vec<Value> = b.iter().enumerate().map(|(k, qi)| tagq(&alpha[*qi].1, &format!("q{}", k))).collect();
+                    let queries: Vec<Value> = b
+                        .iter()
+                        .enumerate()
+                        .map(|(k, qi)| tagq(&alpha[*qi].1, &format!("q{}", k)))
+                        .collect();
                     let path = scratch.path.join(format!("out_{}_{}.jsonl", ai, bi));
                     let _ = std::fs::remove_file(&path);
                     let mut cfg = json!({"response_output_policy": {"type": "file", "filename": path.to_str().unwrap(), "format": {"type": "json", "newline_delimited": true}}});
@@ -166,12 +260,22 @@ fn batch_histories(tier: Tier, st: &mut Stats, only: Option<&Value>) -> bool {
                     if let Some(p) = override_par {
                         cfg["parallelism"] = json!(p);
                     }
-                    let comp = format!("batch_histories.{}.{}", bal, if persist.starts_with("persist") { "keep" } else { "discard" });
+                    let comp = format!(
+                        "batch_histories.{}.{}",
+                        bal,
+                        if persist.starts_with("persist") {
+                            "keep"
+                        } else {
+                            "discard"
+                        }
+                    );
                     let names: Vec<&str> = b.iter().map(|qi| alpha[*qi].0).collect();
                     let case = || json!({"batch": names, "configured_parallelism": par, "run_parallelism": override_par, "balancer": bal, "persistence": persist, "persistence_from": if persist_opt.is_some() { "run configuration" } else { "application configuration" }, "configured_persistence": configured_persist});
                     let size = b.len() as u64 * 100 + b.iter().sum::<usize>() as u64;
                     let (a2, q2, c2) = (app.clone(), queries.clone(), cfg.clone());
-                    let r = match crate::engine::with_deadline(60, move || guarded(|| a2.run(q2, Some(&c2)).map_err(|e| e.to_string()))) {
+                    let r = match crate::engine::with_deadline(60, move || {
+                        guarded(|| a2.run(q2, Some(&c2)).map_err(|e| e.to_string()))
+                    }) {
                         Some(r) => r,
                         None => {
                             st.violation(&comp, "returns_in_bounded_time", size, || "CompassApp::run did not return within 60 s (worker pool stuck); the rest of the batch histories is skipped".to_string(), case);
@@ -192,8 +296,16 @@ fn batch_histories(tier: Tier, st: &mut Stats, only: Option<&Value>) -> bool {
                     // all responses are observable in the file under both policies
                     let text = std::fs::read_to_string(&path).unwrap_or_default();
                     let _ = std::fs::remove_file(&path);
-                    let filed: Vec<Value> = text.split('\n').filter(|l| !l.is_empty()).filter_map(|l| serde_json::from_str(l).ok()).collect();
-                    let observed: &Vec<Value> = if persist.starts_with("persist") { &returned } else { &filed };
+                    let filed: Vec<Value> = text
+                        .split('\n')
+                        .filter(|l| !l.is_empty())
+                        .filter_map(|l| serde_json::from_str(l).ok())
+                        .collect();
+                    let observed: &Vec<Value> = if persist.starts_with("persist") {
+                        &returned
+                    } else {
+                        &filed
+                    };
                     // expected: union of what each query returns alone, with this batch's tags
                     let mut want: Vec<Value> = vec![];
                     for (k, qi) in b.iter().enumerate() {
@@ -207,28 +319,78 @@ fn batch_histories(tier: Tier, st: &mut Stats, only: Option<&Value>) -> bool {
                     if got.len() == want.len() {
                         st.pass("one_response_per_expanded_query");
                     } else {
-                        st.violation(&comp, "one_response_per_expanded_query", size, || format!("{} responses for {} expanded queries", got.len(), want.len()), case);
+                        st.violation(
+                            &comp,
+                            "one_response_per_expanded_query",
+                            size,
+                            || {
+                                format!(
+                                    "{} responses for {} expanded queries",
+                                    got.len(),
+                                    want.len()
+                                )
+                            },
+                            case,
+                        );
                     }
                     if canon_multiset(&got) == canon_multiset(&want) {
                         st.pass("responses_equal_alone_responses");
                     } else {
                         let g = canon_multiset(&got);
                         let w = canon_multiset(&want);
-                        let missing: Vec<&String> = w.iter().filter(|x| !g.contains(x)).take(2).collect();
-                        let extra: Vec<&String> = g.iter().filter(|x| !w.contains(x)).take(2).collect();
-                        st.violation(&comp, "responses_equal_alone_responses", size, || format!("missing {:?} ; unexpected {:?}", missing, extra), case);
+                        let missing: Vec<&String> =
+                            w.iter().filter(|x| !g.contains(x)).take(2).collect();
+                        let extra: Vec<&String> =
+                            g.iter().filter(|x| !w.contains(x)).take(2).collect();
+                        st.violation(
+                            &comp,
+                            "responses_equal_alone_responses",
+                            size,
+                            || format!("missing {:?} ; unexpected {:?}", missing, extra),
+                            case,
+                        );
                     }
                     // a discarding run hands back only what never reached the search (responses of input-plugin failures)
                     if !persist.starts_with("persist") {
-                        let allowed = b.iter().filter(|qi| alpha[**qi].0 == "plugin_failure").count();
+                        let allowed = b
+                            .iter()
+                            .filter(|qi| alpha[**qi].0 == "plugin_failure")
+                            .count();
                         if returned.len() <= allowed {
                             st.pass("discarding_run_returns_no_search_responses");
                         } else {
-                            st.violation(&comp, "discarding_run_returns_no_search_responses", size, || format!("{} responses returned, at most {} expected", returned.len(), allowed), case);
+                            st.violation(
+                                &comp,
+                                "discarding_run_returns_no_search_responses",
+                                size,
+                                || {
+                                    format!(
+                                        "{} responses returned, at most {} expected",
+                                        returned.len(),
+                                        allowed
+                                    )
+                                },
+                                case,
+                            );
                         }
                     }
-                    if persist.starts_with("persist") && canon_multiset(&filed.iter().map(proj).collect::<Vec<_>>()) != canon_multiset(&got) {
-                        st.violation(&comp, "file_and_returned_responses_agree", size, || format!("file has {} records, {} returned", filed.len(), returned.len()), case);
+                    if persist.starts_with("persist")
+                        && canon_multiset(&filed.iter().map(proj).collect::<Vec<_>>())
+                            != canon_multiset(&got)
+                    {
+                        st.violation(
+                            &comp,
+                            "file_and_returned_responses_agree",
+                            size,
+                            || {
+                                format!(
+                                    "file has {} records, {} returned",
+                                    filed.len(),
+                                    returned.len()
+                                )
+                            },
+                            case,
+                        );
                     }
                     if bi == 57 && ai == 4 && override_par.is_none() {
                         st.sample(2, case);
@@ -268,9 +430,29 @@ fn load_balancing(tier: Tier, st: &mut Stats) {
                         st.nontrivial += 1;
                     }
                     let case = || json!({"weights": qs.iter().map(|q| q.get("query_weight_estimate").cloned().unwrap_or(Value::Null)).collect::<Vec<_>>(), "parallelism": par});
-                    match guarded(|| apply_load_balancing_policy(&qs, par, 1.0).map(|b| b.iter().map(|bin| bin.iter().map(|q| q["id"].as_u64().unwrap_or(99)).collect::<Vec<_>>()).collect::<Vec<_>>()).map_err(|e| e.to_string())) {
-                        Err(p) => st.violation("load_balancing", "no_panic", n as u64, || p.clone(), case),
-                        Ok(Err(e)) => st.violation("load_balancing", "returns_bins", n as u64, || e.clone(), case),
+                    match guarded(|| {
+                        apply_load_balancing_policy(&qs, par, 1.0)
+                            .map(|b| {
+                                b.iter()
+                                    .map(|bin| {
+                                        bin.iter()
+                                            .map(|q| q["id"].as_u64().unwrap_or(99))
+                                            .collect::<Vec<_>>()
+                                    })
+                                    .collect::<Vec<_>>()
+                            })
+                            .map_err(|e| e.to_string())
+                    }) {
+                        Err(p) => {
+                            st.violation("load_balancing", "no_panic", n as u64, || p.clone(), case)
+                        }
+                        Ok(Err(e)) => st.violation(
+                            "load_balancing",
+                            "returns_bins",
+                            n as u64,
+                            || e.clone(),
+                            case,
+                        ),
                         Ok(Ok(bins)) => {
                             let mut all: Vec<u64> = bins.iter().flatten().cloned().collect();
                             all.sort();
@@ -278,18 +460,46 @@ fn load_balancing(tier: Tier, st: &mut Stats) {
                             if all == want && bins.len() <= par {
                                 st.pass("every_query_in_exactly_one_bin");
                             } else {
-                                st.violation("load_balancing", "every_query_in_exactly_one_bin", n as u64, || format!("bins {:?} for {} queries, parallelism {}", bins, n, par), case);
+                                st.violation(
+                                    "load_balancing",
+                                    "every_query_in_exactly_one_bin",
+                                    n as u64,
+                                    || {
+                                        format!(
+                                            "bins {:?} for {} queries, parallelism {}",
+                                            bins, n, par
+                                        )
+                                    },
+                                    case,
+                                );
                             }
                             // greedy least-loaded assignment keeps bins balanced: no bin exceeds the lightest by more than the heaviest single weight
-                            let wt = |id: u64| qs[id as usize].get("query_weight_estimate").and_then(|v| v.as_f64()).unwrap_or(1.0);
+                            let wt = |id: u64| {
+                                qs[id as usize]
+                                    .get("query_weight_estimate")
+                                    .and_then(|v| v.as_f64())
+                                    .unwrap_or(1.0)
+                            };
                             if !bins.is_empty() {
-                                let loads: Vec<f64> = bins.iter().map(|b| b.iter().map(|i| wt(*i)).sum()).collect();
+                                let loads: Vec<f64> = bins
+                                    .iter()
+                                    .map(|b| b.iter().map(|i| wt(*i)).sum())
+                                    .collect();
                                 let maxw = (0..n as u64).map(wt).fold(0.0, f64::max);
-                                let (lo_, hi_) = (loads.iter().cloned().fold(f64::INFINITY, f64::min), loads.iter().cloned().fold(0.0, f64::max));
+                                let (lo_, hi_) = (
+                                    loads.iter().cloned().fold(f64::INFINITY, f64::min),
+                                    loads.iter().cloned().fold(0.0, f64::max),
+                                );
                                 if hi_ - lo_ <= maxw + 1e-9 {
                                     st.pass("bins_are_balanced");
                                 } else {
-                                    st.violation("load_balancing", "bins_are_balanced", n as u64, || format!("loads {:?}", loads), case);
+                                    st.violation(
+                                        "load_balancing",
+                                        "bins_are_balanced",
+                                        n as u64,
+                                        || format!("loads {:?}", loads),
+                                        case,
+                                    );
                                 }
                             }
                         }
@@ -304,8 +514,15 @@ fn load_balancing(tier: Tier, st: &mut Stats) {
 /// the application with a prediction cache shared by all workers
 fn cache_spec() -> AppSpec {
     let mut spec = AppSpec::simple(base_net());
-    let speeds: Vec<f64> = (0..base_net().m()).map(|e| [30.0, 50.0, 80.0][e % 3]).collect();
-    spec.speed = Some((speeds, SpeedUnit::KilometersPerHour, Some(DistanceUnit::Miles), Some(TimeUnit::Minutes)));
+    let speeds: Vec<f64> = (0..base_net().m())
+        .map(|e| [30.0, 50.0, 80.0][e % 3])
+        .collect();
+    spec.speed = Some((
+        speeds,
+        SpeedUnit::KilometersPerHour,
+        Some(DistanceUnit::Miles),
+        Some(TimeUnit::Minutes),
+    ));
     spec.traversal_override = Some(json!({
         "type": "energy_model",
         "time_model": {"type": "speed_table", "speed_table_input_file": "$DIR/speeds.txt", "speed_unit": "kilometers_per_hour", "distance_unit": "miles", "time_unit": "minutes"},
@@ -323,37 +540,119 @@ fn cache_spec() -> AppSpec {
 fn schedule_scenarios(tier: Tier) -> Vec<(bool, Scenario, Option<usize>)> {
     let qa = crate::props::c19::query_alphabet();
     let q = |i: usize, id: &str| tagq(&qa[i], id);
-    let e = |o: usize, d: usize, id: &str| tagq(&json!({"origin_vertex": o, "destination_vertex": d, "model_name": "bolt", "starting_soc_percent": 70}), id);
+    let e = |o: usize, d: usize, id: &str| {
+        tagq(
+            &json!({"origin_vertex": o, "destination_vertex": d, "model_name": "bolt", "starting_soc_percent": 70}),
+            id,
+        )
+    };
     let cb = Some(tier.pick(3, 4));
     // (a fresh application per schedule costs ~10 ms: the cold scenarios keep bound 2 in the quick tier)
     let cold = Some(tier.pick(2, 4));
     vec![
-        (false, Scenario { name: "c06_2x2_jsonl".into(), batches: vec![vec![q(0, "a0"), q(2, "a1")], vec![q(1, "b0"), q(4, "b1")]], csv: false, flush_rate: 1, keep_responses: true, fresh_app: false, combined: false }, None),
-        (false, Scenario { name: "c06_3x1_csv".into(), batches: vec![vec![q(0, "a0")], vec![q(2, "b0")], vec![q(3, "c0")]], csv: true, flush_rate: 1, keep_responses: true, fresh_app: false, combined: false }, Some(tier.pick(3, 5))),
+        (
+            false,
+            Scenario {
+                name: "c06_2x2_jsonl".into(),
+                batches: vec![vec![q(0, "a0"), q(2, "a1")], vec![q(1, "b0"), q(4, "b1")]],
+                csv: false,
+                flush_rate: 1,
+                keep_responses: true,
+                fresh_app: false,
+                combined: false,
+            },
+            None,
+        ),
+        (
+            false,
+            Scenario {
+                name: "c06_3x1_csv".into(),
+                batches: vec![vec![q(0, "a0")], vec![q(2, "b0")], vec![q(3, "c0")]],
+                csv: true,
+                flush_rate: 1,
+                keep_responses: true,
+                fresh_app: false,
+                combined: false,
+            },
+            Some(tier.pick(3, 5)),
+        ),
         // shared prediction cache, two tasks running battery-electric queries over one FloatCachePolicy.
         // warm: every lookup is a hit (the cache was filled by the alone runs); cold: a fresh application per execution, so that
         // misses, the model call and the update of two workers interleave; distinct: the two workers meet the keys in different orders
-        (true, Scenario { name: "c06_2x1_shared_prediction_cache".into(), batches: vec![vec![e(0, 4, "a0")], vec![e(0, 4, "b0")]], csv: false, flush_rate: 1, keep_responses: true, fresh_app: false, combined: false }, cb),
-        (true, Scenario { name: "c06_2x1_shared_prediction_cache_cold".into(), batches: vec![vec![e(0, 4, "a0")], vec![e(0, 4, "b0")]], csv: false, flush_rate: 1, keep_responses: true, fresh_app: true, combined: false }, cold),
-        (true, Scenario { name: "c06_2x1_shared_prediction_cache_cold_distinct".into(), batches: vec![vec![e(0, 4, "a0")], vec![e(3, 1, "b0")]], csv: false, flush_rate: 1, keep_responses: true, fresh_app: true, combined: false }, cold),
+        (
+            true,
+            Scenario {
+                name: "c06_2x1_shared_prediction_cache".into(),
+                batches: vec![vec![e(0, 4, "a0")], vec![e(0, 4, "b0")]],
+                csv: false,
+                flush_rate: 1,
+                keep_responses: true,
+                fresh_app: false,
+                combined: false,
+            },
+            cb,
+        ),
+        (
+            true,
+            Scenario {
+                name: "c06_2x1_shared_prediction_cache_cold".into(),
+                batches: vec![vec![e(0, 4, "a0")], vec![e(0, 4, "b0")]],
+                csv: false,
+                flush_rate: 1,
+                keep_responses: true,
+                fresh_app: true,
+                combined: false,
+            },
+            cold,
+        ),
+        (
+            true,
+            Scenario {
+                name: "c06_2x1_shared_prediction_cache_cold_distinct".into(),
+                batches: vec![vec![e(0, 4, "a0")], vec![e(3, 1, "b0")]],
+                csv: false,
+                flush_rate: 1,
+                keep_responses: true,
+                fresh_app: true,
+                combined: false,
+            },
+            cold,
+        ),
     ]
 }
 
-fn schedules(tier: Tier, st: &mut Stats, bounds: &mut serde_json::Map<String, Value>) -> Result<(), String> {
+fn schedules(
+    tier: Tier,
+    st: &mut Stats,
+    bounds: &mut serde_json::Map<String, Value>,
+) -> Result<(), String> {
     // one worker process per scenario (the scheduling hook is global to a process)
-    let s = crate::props::c19::explore_in_workers("C06", tier, schedule_scenarios(tier).len() as u64, bounds)?;
+    let s = crate::props::c19::explore_in_workers(
+        "C06",
+        tier,
+        schedule_scenarios(tier).len() as u64,
+        bounds,
+    )?;
     st.merge(s);
     Ok(())
 }
 
 pub fn worker(args: &[String]) -> i32 {
-    let tier = if args.first().map(|s| s.as_str()) == Some("thorough") { Tier::Thorough } else { Tier::Quick };
+    let tier = if args.first().map(|s| s.as_str()) == Some("thorough") {
+        Tier::Thorough
+    } else {
+        Tier::Quick
+    };
     if args.get(1).map(|s| s.as_str()) == Some("batches") {
         // one case = the batch histories of one of the twelve configurations
         return crate::engine::sandbox::worker_loop(|i, st| {
             let par = i as usize / 3 + 1;
             let bal = ["none", "haversine", "custom"][i as usize % 3];
-            if !batch_histories(tier, st, Some(&json!({"configured_parallelism": par, "balancer": bal}))) {
+            if !batch_histories(
+                tier,
+                st,
+                Some(&json!({"configured_parallelism": par, "balancer": bal})),
+            ) {
                 st.notes.insert("STUCK".into());
             }
         });
@@ -365,7 +664,11 @@ pub fn worker(args: &[String]) -> i32 {
         let (cache, sc, bound) = &scs[i as usize];
         let slot = if *cache { &mut fx_cache } else { &mut fx_plain };
         if slot.is_none() {
-            match fixture_spec(&if *cache { cache_spec() } else { AppSpec::simple(base_net()) }) {
+            match fixture_spec(&if *cache {
+                cache_spec()
+            } else {
+                AppSpec::simple(base_net())
+            }) {
                 Ok(f) => *slot = Some(f),
                 Err(e) => {
                     st.notes.insert(format!("MACHINERY {}", e));
@@ -373,7 +676,14 @@ pub fn worker(args: &[String]) -> i32 {
                 }
             }
         }
-        crate::props::c19::explore_and_note(slot.as_ref().unwrap(), sc, *bound, tier.pick(20_000, 1_000_000), "C06", st);
+        crate::props::c19::explore_and_note(
+            slot.as_ref().unwrap(),
+            sc,
+            *bound,
+            tier.pick(20_000, 1_000_000),
+            "C06",
+            st,
+        );
     })
 }
 
@@ -401,8 +711,10 @@ fn cli_histories(tier: Tier, st: &mut Stats, only: Option<&Value>) {
     let kinds = ["answerable", "unreachable", "not_json", "blank"];
     let row = |k: usize, pos: usize| -> String {
         match k {
-            0 => json!({"origin_vertex": 0, "destination_vertex": 4, "qid": format!("r{}", pos)}).to_string(),
-            1 => json!({"origin_vertex": 4, "destination_vertex": 0, "qid": format!("r{}", pos)}).to_string(),
+            0 => json!({"origin_vertex": 0, "destination_vertex": 4, "qid": format!("r{}", pos)})
+                .to_string(),
+            1 => json!({"origin_vertex": 4, "destination_vertex": 0, "qid": format!("r{}", pos)})
+                .to_string(),
             2 => "{\"origin_vertex\": 0, \"destination_vertex\"".to_string(),
             _ => String::new(),
         }
@@ -424,12 +736,19 @@ fn cli_histories(tier: Tier, st: &mut Stats, only: Option<&Value>) {
     let mut runs = 0u64;
     for (hi, h) in histories.iter().enumerate() {
         for chunk in 1..=3i64 {
-            for (pi, persist) in ["persist_response_in_memory", "discard_response_from_memory"].iter().enumerate() {
+            for (pi, persist) in ["persist_response_in_memory", "discard_response_from_memory"]
+                .iter()
+                .enumerate()
+            {
                 if let Some(o) = only {
-                    if o["rows"] != json!(h.iter().map(|k| kinds[*k]).collect::<Vec<_>>()) || o["chunksize"] != json!(chunk) || o["persistence"] != json!(persist) {
+                    if o["rows"] != json!(h.iter().map(|k| kinds[*k]).collect::<Vec<_>>())
+                        || o["chunksize"] != json!(chunk)
+                        || o["persistence"] != json!(persist)
+                    {
                         continue;
                     }
-                } else if tier == Tier::Quick && h.len() == 4 && (hi + chunk as usize + pi) % 4 != 0 {
+                } else if tier == Tier::Quick && h.len() == 4 && (hi + chunk as usize + pi) % 4 != 0
+                {
                     continue;
                 }
                 runs += 1;
@@ -440,28 +759,74 @@ fn cli_histories(tier: Tier, st: &mut Stats, only: Option<&Value>) {
                 if h.len() > chunk as usize {
                     st.nontrivial += 1;
                 }
-                let qfile = scratch.path.join(format!("q_{}_{}_{}.jsonl", hi, chunk, pi));
-                let ofile = scratch.path.join(format!("o_{}_{}_{}.jsonl", hi, chunk, pi));
+                let qfile = scratch
+                    .path
+                    .join(format!("q_{}_{}_{}.jsonl", hi, chunk, pi));
+                let ofile = scratch
+                    .path
+                    .join(format!("o_{}_{}_{}.jsonl", hi, chunk, pi));
                 let _ = std::fs::remove_file(&ofile);
-                let text: String = h.iter().enumerate().map(|(pos, k)| row(*k, pos) + "\n").collect();
+                let text: String = h
+                    .iter()
+                    .enumerate()
+                    .map(|(pos, k)| row(*k, pos) + "\n")
+                    .collect();
                 let _ = std::fs::write(&qfile, text);
                 let run_cfg = json!({"parallelism": 2, "response_persistence_policy": persist, "response_output_policy": {"type": "file", "filename": ofile.to_str().unwrap_or(""), "format": {"type": "json", "newline_delimited": true}, "file_flush_rate": 1}});
-                let args = CliArgs { config_file: conf_path.to_str().unwrap_or("").to_string(), query_file: qfile.to_str().unwrap_or("").to_string(), chunksize: Some(chunk), newline_delimited: true };
+                let args = CliArgs {
+                    config_file: conf_path.to_str().unwrap_or("").to_string(),
+                    query_file: qfile.to_str().unwrap_or("").to_string(),
+                    chunksize: Some(chunk),
+                    newline_delimited: true,
+                };
                 let case = || json!({"cli": true, "rows": h.iter().map(|k| kinds[*k]).collect::<Vec<_>>(), "chunksize": chunk, "persistence": persist});
-                let comp = format!("command_line.chunked.{}", if pi == 0 { "persist" } else { "discard" });
-                match guarded(|| command_line_runner(&args, None, Some(&run_cfg)).map_err(|e| e.to_string())) {
+                let comp = format!(
+                    "command_line.chunked.{}",
+                    if pi == 0 { "persist" } else { "discard" }
+                );
+                match guarded(|| {
+                    command_line_runner(&args, None, Some(&run_cfg)).map_err(|e| e.to_string())
+                }) {
                     Err(p) => st.violation(&comp, "no_panic", h.len() as u64, || p.clone(), case),
-                    Ok(Err(e)) => st.violation(&comp, "run_returns", h.len() as u64, || e.clone(), case),
+                    Ok(Err(e)) => {
+                        st.violation(&comp, "run_returns", h.len() as u64, || e.clone(), case)
+                    }
                     Ok(Ok(())) => {
                         let out = std::fs::read_to_string(&ofile).unwrap_or_default();
-                        let mut got: Vec<(String, bool)> = out.lines().filter(|l| !l.is_empty()).filter_map(|l| serde_json::from_str::<Value>(l).ok()).map(|v| (v["request"]["qid"].as_str().unwrap_or("?").to_string(), v.get("error").map_or(false, |e| !e.is_null()))).collect();
+                        let mut got: Vec<(String, bool)> = out
+                            .lines()
+                            .filter(|l| !l.is_empty())
+                            .filter_map(|l| serde_json::from_str::<Value>(l).ok())
+                            .map(|v| {
+                                (
+                                    v["request"]["qid"].as_str().unwrap_or("?").to_string(),
+                                    v.get("error").map_or(false, |e| !e.is_null()),
+                                )
+                            })
+                            .collect();
                         got.sort();
-                        let mut want: Vec<(String, bool)> = h.iter().enumerate().filter(|(_, k)| **k < 2).map(|(pos, k)| (format!("r{}", pos), *k == 1)).collect();
+                        let mut want: Vec<(String, bool)> = h
+                            .iter()
+                            .enumerate()
+                            .filter(|(_, k)| **k < 2)
+                            .map(|(pos, k)| (format!("r{}", pos), *k == 1))
+                            .collect();
                         want.sort();
                         if got == want {
                             st.pass("one_response_per_readable_row");
                         } else {
-                            st.violation(&comp, "one_response_per_readable_row", h.len() as u64, || format!("responses (row, is an error) {:?}, readable rows {:?}", got, want), case);
+                            st.violation(
+                                &comp,
+                                "one_response_per_readable_row",
+                                h.len() as u64,
+                                || {
+                                    format!(
+                                        "responses (row, is an error) {:?}, readable rows {:?}",
+                                        got, want
+                                    )
+                                },
+                                case,
+                            );
                         }
                     }
                 }
@@ -473,7 +838,6 @@ fn cli_histories(tier: Tier, st: &mut Stats, only: Option<&Value>) {
     st.notes.insert(format!("command-line driver: {} runs over row histories of length 1-4 x chunk size 1-3 x persistence policy", runs));
 }
 
-
 /// a plugin chain that expands twice: the query's own grid section, then a grid section the configuration injects into every
 /// query (`b = [10, 20]`), expanded by a second grid-search plugin. Every batch over {plain, own grid of 2, own grid of 3,
 /// failing} of length 1-2 under per-run parallelism 1-3: one response per expanded query, each carrying its combination, the
@@ -481,28 +845,63 @@ fn cli_histories(tier: Tier, st: &mut Stats, only: Option<&Value>) {
 fn chained_expansion(st: &mut Stats, only: Option<&Value>) {
     let scratch = Scratch::new("c06chain");
     let mut spec = AppSpec::simple(base_net());
-    spec.input_plugins = vec![json!({"type": "grid_search"}), json!({"type": "inject", "key": "grid_search", "value": "{\"b\": [10, 20]}", "format": "json"}), json!({"type": "grid_search"})];
+    spec.input_plugins = vec![
+        json!({"type": "grid_search"}),
+        json!({"type": "inject", "key": "grid_search", "value": "{\"b\": [10, 20]}", "format": "json"}),
+        json!({"type": "grid_search"}),
+    ];
     let app = match spec.build(&scratch.path.join("app")) {
         Ok(a) => a,
         Err(e) => {
-            st.violation("harness", "app_build", 0, || e.clone(), || json!({"chained_expansion": true}));
+            st.violation(
+                "harness",
+                "app_build",
+                0,
+                || e.clone(),
+                || json!({"chained_expansion": true}),
+            );
             return;
         }
     };
     let kinds: Vec<(&str, Value, usize)> = vec![
-        ("plain", json!({"origin_vertex": 0, "destination_vertex": 4, "tag": "p"}), 2),
-        ("own_grid_of_two", json!({"origin_vertex": 0, "destination_vertex": 4, "tag": "g2", "grid_search": {"a": [1, 2]}}), 4),
-        ("own_grid_of_three", json!({"origin_vertex": 1, "destination_vertex": 4, "tag": "g3", "grid_search": {"a": [1, 2, 3]}}), 6),
-        ("failing", json!({"origin_vertex": 0, "destination_vertex": 4000, "tag": "f"}), 2),
+        (
+            "plain",
+            json!({"origin_vertex": 0, "destination_vertex": 4, "tag": "p"}),
+            2,
+        ),
+        (
+            "own_grid_of_two",
+            json!({"origin_vertex": 0, "destination_vertex": 4, "tag": "g2", "grid_search": {"a": [1, 2]}}),
+            4,
+        ),
+        (
+            "own_grid_of_three",
+            json!({"origin_vertex": 1, "destination_vertex": 4, "tag": "g3", "grid_search": {"a": [1, 2, 3]}}),
+            6,
+        ),
+        (
+            "failing",
+            json!({"origin_vertex": 0, "destination_vertex": 4000, "tag": "f"}),
+            2,
+        ),
     ];
-    let key = |r: &Value| canon_json(&json!({"request": r.get("request"), "error": r.get("error").is_some(), "route": project(r)["route"]}));
+    let key = |r: &Value| {
+        canon_json(
+            &json!({"request": r.get("request"), "error": r.get("error").is_some(), "route": project(r)["route"]}),
+        )
+    };
     let mut alone: Vec<Option<Vec<String>>> = vec![];
     for (_, q, _) in kinds.iter() {
-        alone.push(guarded(|| app.run(vec![q.clone()], Some(&json!({"parallelism": 1})))).ok().and_then(|r| r.ok()).map(|rs| {
-            let mut v: Vec<String> = rs.iter().map(key).collect();
-            v.sort();
-            v
-        }));
+        alone.push(
+            guarded(|| app.run(vec![q.clone()], Some(&json!({"parallelism": 1}))))
+                .ok()
+                .and_then(|r| r.ok())
+                .map(|rs| {
+                    let mut v: Vec<String> = rs.iter().map(key).collect();
+                    v.sort();
+                    v
+                }),
+        );
     }
     let mut batches: Vec<Vec<usize>> = (0..kinds.len()).map(|i| vec![i]).collect();
     for i in 0..kinds.len() {
@@ -525,20 +924,33 @@ fn chained_expansion(st: &mut Stats, only: Option<&Value>) {
             if b.len() >= 2 {
                 st.nontrivial += 1;
             }
-            let batch: Vec<Value> = b.iter().enumerate().map(|(pos, i)| {
-                let mut q = kinds[*i].1.clone();
-                q["position"] = json!(pos);
-                q
-            }).collect();
+            let batch: Vec<Value> = b
+                .iter()
+                .enumerate()
+                .map(|(pos, i)| {
+                    let mut q = kinds[*i].1.clone();
+                    q["position"] = json!(pos);
+                    q
+                })
+                .collect();
             let comp = "batch_histories.chained_expansion".to_string();
             let case = || json!({"chained_expansion": true, "batch": names, "run_parallelism": par, "queries": batch});
-            let rs = match guarded(|| app.run(batch.clone(), Some(&json!({"parallelism": par}))).map_err(|e| e.to_string())) {
+            let rs = match guarded(|| {
+                app.run(batch.clone(), Some(&json!({"parallelism": par})))
+                    .map_err(|e| e.to_string())
+            }) {
                 Err(p) => {
                     st.violation(&comp, "no_panic", b.len() as u64, || p.clone(), case);
                     continue;
                 }
                 Ok(Err(e)) => {
-                    st.violation(&comp, "run_returns_responses", b.len() as u64, || e.clone(), case);
+                    st.violation(
+                        &comp,
+                        "run_returns_responses",
+                        b.len() as u64,
+                        || e.clone(),
+                        case,
+                    );
                     continue;
                 }
                 Ok(Ok(r)) => r,
@@ -549,7 +961,15 @@ fn chained_expansion(st: &mut Stats, only: Option<&Value>) {
                 continue;
             }
             // every combination once: (position, a, b) of the requests
-            let mut combos: Vec<String> = rs.iter().map(|r| format!("{}/{}/{}", r["request"]["position"], r["request"]["a"], r["request"]["b"])).collect();
+            let mut combos: Vec<String> = rs
+                .iter()
+                .map(|r| {
+                    format!(
+                        "{}/{}/{}",
+                        r["request"]["position"], r["request"]["a"], r["request"]["b"]
+                    )
+                })
+                .collect();
             combos.sort();
             let mut wanted: Vec<String> = vec![];
             for (pos, i) in b.iter().enumerate() {
@@ -565,7 +985,13 @@ fn chained_expansion(st: &mut Stats, only: Option<&Value>) {
             }
             wanted.sort();
             if combos != wanted {
-                st.violation(&comp, "each_response_carries_its_request", b.len() as u64, || format!("combinations answered {:?}, expected {:?}", combos, wanted), case);
+                st.violation(
+                    &comp,
+                    "each_response_carries_its_request",
+                    b.len() as u64,
+                    || format!("combinations answered {:?}, expected {:?}", combos, wanted),
+                    case,
+                );
                 continue;
             }
             // equal to the queries alone (positions aside)
@@ -588,11 +1014,28 @@ fn chained_expansion(st: &mut Stats, only: Option<&Value>) {
             }
             exp.sort();
             if !known {
-                st.violation(&comp, "run_returns_responses", b.len() as u64, || "a query of the batch could not be run alone".to_string(), case);
+                st.violation(
+                    &comp,
+                    "run_returns_responses",
+                    b.len() as u64,
+                    || "a query of the batch could not be run alone".to_string(),
+                    case,
+                );
             } else if got == exp {
                 st.pass("chained_expansion_equals_queries_alone");
             } else {
-                st.violation(&comp, "multiset_equals_queries_alone", b.len() as u64, || format!("batch gives {:?}, the queries alone give {:?}", got, exp).chars().take(900).collect::<String>(), case);
+                st.violation(
+                    &comp,
+                    "multiset_equals_queries_alone",
+                    b.len() as u64,
+                    || {
+                        format!("batch gives {:?}, the queries alone give {:?}", got, exp)
+                            .chars()
+                            .take(900)
+                            .collect::<String>()
+                    },
+                    case,
+                );
             }
         }
     }
@@ -606,7 +1049,12 @@ pub fn run(tier: Tier) -> i32 {
     let alive = {
         use crate::engine::sandbox::{run_cases, SandboxCfg};
         let cfg = SandboxCfg {
-            worker_args: vec!["--worker".into(), "C06".into(), tier.as_str().into(), "batches".into()],
+            worker_args: vec![
+                "--worker".into(),
+                "C06".into(),
+                tier.as_str().into(),
+                "batches".into(),
+            ],
             n_workers: 12,
             case_timeout: std::time::Duration::from_secs(tier.pick(1200, 6 * 3600)),
             block: 1,
@@ -615,7 +1063,10 @@ pub fn run(tier: Tier) -> i32 {
         match run_cases(&cfg, 12) {
             Ok((s, fates)) => {
                 if !fates.is_empty() {
-                    println!("MACHINERY-ERROR batch history workers hung or died: {:?}", fates);
+                    println!(
+                        "MACHINERY-ERROR batch history workers hung or died: {:?}",
+                        fates
+                    );
                     return 2;
                 }
                 let stuck = s.notes.contains("STUCK");
@@ -632,16 +1083,24 @@ pub fn run(tier: Tier) -> i32 {
     load_balancing(tier, &mut st);
     cli_histories(tier, &mut st, None);
     chained_expansion(&mut st, None);
-    st.sample(3, || json!({"load_balancing": {"weights": [null, 5.0, 0.0, 2.0], "parallelism": 3}}));
+    st.sample(
+        3,
+        || json!({"load_balancing": {"weights": [null, 5.0, 0.0, 2.0], "parallelism": 3}}),
+    );
     if alive {
         if let Err(e) = schedules(tier, &mut st, &mut bounds) {
             println!("MACHINERY-ERROR {}", e);
             return 2;
         }
     } else {
-        st.notes.insert("schedule exploration skipped: the application's global worker pool is stuck".into());
+        st.notes.insert(
+            "schedule exploration skipped: the application's global worker pool is stuck".into(),
+        );
     }
-    st.sample(4, || json!({"schedule_scenario": "c06_2x2_jsonl", "schedule": [1, 0, 0, 1]}));
+    st.sample(
+        4,
+        || json!({"schedule_scenario": "c06_2x2_jsonl", "schedule": [1, 0, 0, 1]}),
+    );
     bounds.insert("batch_length".into(), json!(tier.pick(3, 4)));
     bounds.insert("load_balancing_queries".into(), json!(tier.pick(5, 6)));
     finish(
@@ -665,7 +1124,11 @@ pub fn replay(case: &Value) -> i32 {
         None => {
             // a batch history or a load-balancing case: run again without the tier (the batch under its configuration with
             // every per-run override and both policies; the whole load-balancing enumeration, which takes a second)
-            let c = if case.get("case").is_some() { &case["case"] } else { case };
+            let c = if case.get("case").is_some() {
+                &case["case"]
+            } else {
+                case
+            };
             let mut st = Stats::new();
             if c.get("chained_expansion").is_some() {
                 chained_expansion(&mut st, Some(c));
@@ -677,20 +1140,36 @@ pub fn replay(case: &Value) -> i32 {
                 load_balancing(Tier::Thorough, &mut st);
             }
             for (k, g) in st.violations.iter() {
-                println!("REPLAY-VIOLATION {} ({} cases) {}", k, g.count, g.detail.chars().take(500).collect::<String>());
+                println!(
+                    "REPLAY-VIOLATION {} ({} cases) {}",
+                    k,
+                    g.count,
+                    g.detail.chars().take(500).collect::<String>()
+                );
             }
-            println!("replay: {} violated clauses over {} runs", st.violations.len(), st.evaluations);
+            println!(
+                "replay: {} violated clauses over {} runs",
+                st.violations.len(),
+                st.evaluations
+            );
             return if st.violations.is_empty() { 0 } else { 1 };
         }
     };
-    let (cache, sc, _) = match schedule_scenarios(Tier::Thorough).into_iter().find(|s| s.1.name == name) {
+    let (cache, sc, _) = match schedule_scenarios(Tier::Thorough)
+        .into_iter()
+        .find(|s| s.1.name == name)
+    {
         Some(s) => s,
         None => {
             println!("MACHINERY-ERROR unknown scenario {}", name);
             return 2;
         }
     };
-    let fx = match fixture_spec(&if cache { cache_spec() } else { AppSpec::simple(base_net()) }) {
+    let fx = match fixture_spec(&if cache {
+        cache_spec()
+    } else {
+        AppSpec::simple(base_net())
+    }) {
         Ok(f) => f,
         Err(e) => {
             println!("MACHINERY-ERROR {}", e);
@@ -706,16 +1185,42 @@ pub fn replay(case: &Value) -> i32 {
         match crate::props::c19::run_scenario(&ex, &fx, &sc, &prefix, None, false) {
             Ok(o) => {
                 if let Some(d) = &o.exec.diverged {
-                    println!("MACHINERY-ERROR the recorded schedule cannot be followed: {}", d);
+                    println!(
+                        "MACHINERY-ERROR the recorded schedule cannot be followed: {}",
+                        d
+                    );
                     return 2;
                 }
                 let (bad, order) = crate::props::c19::judge(&sc, &al, &o);
-                let bad: Vec<(&str, String)> = bad.into_iter().filter(|(c, _)| ["task_returns_alone_responses_in_order", "no_deadlock", "task_completes", "discard_policy_returns_nothing"].contains(c)).collect();
-                println!("round {}: file order {} ; {} choice points", round, order, o.exec.points.len());
+                let bad: Vec<(&str, String)> = bad
+                    .into_iter()
+                    .filter(|(c, _)| {
+                        [
+                            "task_returns_alone_responses_in_order",
+                            "no_deadlock",
+                            "task_completes",
+                            "discard_policy_returns_nothing",
+                        ]
+                        .contains(c)
+                    })
+                    .collect();
+                println!(
+                    "round {}: file order {} ; {} choice points",
+                    round,
+                    order,
+                    o.exec.points.len()
+                );
                 for (c, d) in bad.iter() {
-                    println!("REPLAY-VIOLATION {} {}", c, d.chars().take(600).collect::<String>());
+                    println!(
+                        "REPLAY-VIOLATION {} {}",
+                        c,
+                        d.chars().take(600).collect::<String>()
+                    );
                 }
-                verdicts.push((bad.iter().map(|b| b.0.to_string()).collect::<Vec<_>>(), order));
+                verdicts.push((
+                    bad.iter().map(|b| b.0.to_string()).collect::<Vec<_>>(),
+                    order,
+                ));
             }
             Err(e) => {
                 println!("MACHINERY-ERROR {}", e);
